@@ -755,6 +755,12 @@ func (ro *RedisOutput) rdbReplayBisync(ctx context.Context, runID string, fullSy
 					ro.outFilter.FilterSlot(string(e.Key)) {
 					filterOut = true
 				}
+				if isBisyncNamespaceKey(string(e.Key)) {
+					// The source's dataset holds the markers, recovery records and journals the
+					// opposite link keeps there. Like their stream counterparts they are the
+					// tool's own bookkeeping and are never replayed as business data.
+					filterOut = true
+				}
 			}
 
 			if filterOut {
